@@ -13,7 +13,7 @@ Obs(x) == [ conn  |-> SetOf(x.conn), addr |-> {p \in Peers : x.resa[p]},
             feats |-> [p \in Peers |-> {y \in SetOf(x.feats[p]) : y.f \in RemoteNames}],
             subs  |-> SetOf(x.subs), binds |-> SetOf(x.binds), csub |-> SetOf(x.csub), cbind |-> SetOf(x.cbind),
             data  |-> [c \in Cells |-> x.data[c]], rdata |-> [p \in Peers |-> x.rdata[p]],
-            ucs |-> SetOf(x.ucs), nid |-> 0, unans |-> [p \in Peers |-> 0], cbs |-> {}, rcbs |-> {}, nsub |-> 0, nbind |-> 0, nfire |-> 0, rucs |-> [p \in Peers |-> 0] ]
+            ucs |-> SetOf(x.ucs), nid |-> 0, unans |-> [p \in Peers |-> 0], cbs |-> {}, rcbs |-> {}, nsub |-> 0, nbind |-> 0, nfire |-> 0, rucs |-> [p \in Peers |-> 0], edesc |-> [p \in Peers |-> [en \in REnts |-> 0]] ]
 NormAct(a) == IF a.a = "discover" THEN [a EXCEPT !.ents = SetOf(@)] ELSE a
 After(st, a) == {o.st : o \in Outcomes(st, NormAct(a))}
 Serial(st, a, b) == UNION {After(s1, b) : s1 \in After(st, a)}
